@@ -143,6 +143,8 @@ type VC struct {
 	curArgs     map[string]binding // arg0, arg1, ... of the call being processed (for anchored ghost code)
 	opq         map[*Decl]*opaqueInfo
 	opqWork     []*opaqueInfo
+	inl         []*inlineFrame    // callees without a contract being inlined (innermost last)
+	inlBlock    *ssa.BasicBlock   // block of the outermost call being inlined: facts and obligations are tagged with it
 }
 
 type rangeInfo struct {
@@ -212,7 +214,7 @@ func (vc *VC) assume(t Term) {
 	}
 	b := -1
 	if vc.curBlock != nil && vc.curReach != "true" {
-		b = vc.curBlock.Index
+		b = vc.tagBlock().Index
 	}
 	vc.facts = append(vc.facts, fact{fmt.Sprintf("(assert %s)", implies(vc.curReach, t)), b})
 }
@@ -228,6 +230,15 @@ func (vc *VC) assumeGlobal(t Term) {
 		return
 	}
 	vc.facts = append(vc.facts, fact{fmt.Sprintf("(assert %s)", t), -1})
+}
+
+// tagBlock: the block of the function under verification that facts and obligations belong to
+// (inside an inlined callee: the block of the call).
+func (vc *VC) tagBlock() *ssa.BasicBlock {
+	if len(vc.inl) > 0 {
+		return vc.inlBlock
+	}
+	return vc.curBlock
 }
 
 func (vc *VC) ordinal(class string) int {
@@ -267,7 +278,11 @@ func (vc *VC) oblige1(class, label string, goal Term, pos token.Pos) *Obligation
 	o := &Obligation{Name: name, Class: class, Label: label, Func: vc.key, Pos: vc.env.position(pos),
 		FactIdx: len(vc.facts), DeclIdx: len(vc.decls), Guard: vc.curReach, Goal: goal, Block: -1}
 	if vc.curBlock != nil {
-		o.Block = vc.curBlock.Index
+		o.Block = vc.tagBlock().Index
+	}
+	if len(vc.inl) > 0 {
+		// an obligation of an inlined callee: named after the callee, numbered per inlining
+		o.Name = vc.key + "#" + class + ":" + vc.inl[len(vc.inl)-1].prefix + label
 	}
 	if goal == "true" && class != "cover" {
 		// trivially true: not recorded
@@ -521,7 +536,9 @@ func (vc *VC) innerTag(fn string) int {
 	return n
 }
 
-func rootOf(p Term) Term { return ite(app(">", p, "0"), p, app("ys.root", p)) }
+// rootOf: the object a reference belongs to (itself for ordinary references, the enclosing object for
+// derived ones); nil has no root.
+func rootOf(p Term) Term { return ite(app(">=", p, "0"), p, app("ys.root", p)) }
 
 // isInnerField: does field f of struct st live at a derived reference?
 func (vc *VC) isInnerField(st types.Type, f *types.Var) (inner bool, isStruct bool) {
